@@ -59,7 +59,11 @@ func e2eTrack(c *e2eCtx, decoys bool) error {
 					sel = append(sel, pk.Dir)
 				}
 			}
-			if len(sel) > 0 {
+			// an explicit empty selection (`mainEntries: []`, hand-edited) selects no main package
+			if len(sel) > 0 || r.Intn(3) == 0 {
+				if sel == nil {
+					sel = []string{}
+				}
 				s.cfg.MainEntries = sel
 				proj.WriteConfig(s.dir, s.cfg)
 				s.desc = cfgDesc(s.cfg)
@@ -271,6 +275,9 @@ func (c *e2eCtx) trackAndJudge(s *scenario, decoys bool, r *rand.Rand) {
 	}
 	if _, err := os.Stat(filepath.Join(s.dir, s.cfg.PkgPath)); err == nil {
 		c.violate("C06", "tracking package directory still exists after clean", rp(nil))
+	}
+	if lf, ld := proj.Leftovers(s.dir, s.newTree, s.cfg.PkgPath, "goat.yaml"); len(lf)+len(ld) > 0 {
+		c.violate("C06", fmt.Sprintf("after clean the tree holds files %v and directories %v that the project did not have before instrumentation", lf, ld), rp(nil))
 	}
 	for _, path := range sortedKeys(s.newTree) {
 		if !strings.HasSuffix(path, ".go") || cleaned[path] == s.newTree[path] {
